@@ -130,15 +130,18 @@ def identityAgree (d id : Identity) : Bool :=
     (HTTP header names cannot carry case) -/
 def extraKeysLower (id : Identity) : Bool := id.extra.all (fun e => e.1.all (fun c => !isUpper c))
 
-/-- part 2: no optional white space at either end of a name, group or extra value
-    (HTTP header values cannot carry it) -/
-def valuesTrimmed (id : Identity) : Bool :=
-  trimOWS id.name == id.name && id.groups.all (fun g => trimOWS g == g) &&
-  id.extra.all (fun e => e.2.all (fun v => trimOWS v == v))
+/-- a header field value as it arrives: optional white space at both ends is not part of a value
+    (RFC 7230 §3.2); on the upgrade path the writer has turned CR / LF into spaces before -/
+def carried (upgrade : Bool) (v : Str) : Str := trimOWS (if upgrade then newlineToSpace v else v)
 
-/-- the identity with the white space at the ends of its values removed -/
-def trimIdentity (id : Identity) : Identity :=
-  ⟨trimOWS id.name, id.groups.map trimOWS, id.extra.map (fun e => (e.1, e.2.map trimOWS))⟩
+/-- part 2: every name, group and extra value arrives as it is (no white space at either end; no CR / LF) -/
+def valuesCarried (upgrade : Bool) (id : Identity) : Bool :=
+  carried upgrade id.name == id.name && id.groups.all (fun g => carried upgrade g == g) &&
+  id.extra.all (fun e => e.2.all (fun v => carried upgrade v == v))
+
+/-- the identity with every value as it arrives -/
+def carryIdentity (upgrade : Bool) (id : Identity) : Identity :=
+  ⟨carried upgrade id.name, id.groups.map (carried upgrade), id.extra.map (fun e => (e.1, e.2.map (carried upgrade)))⟩
 
 /-- the identity with its extra keys lower-cased -/
 def lowerKeys (id : Identity) : Identity :=
@@ -159,8 +162,9 @@ inductive Class where
   | identityMismatch
   /-- … differing only by the case of extra keys (known limitation of the wire format) -/
   | extraKeyCase
-  /-- … differing only by white space at the ends of values (known limitation of the wire format) -/
-  | valueEdgeWhitespace
+  /-- … differing only by white space at the ends of values, or CR / LF turned into spaces on the upgrade path
+      (known limitation of the wire format) -/
+  | valueNotCarried
 deriving DecidableEq, Repr
 
 def Class.name : Class → String
@@ -170,7 +174,7 @@ def Class.name : Class → String
   | .impersonationHeaders => "c02.impersonation-headers"
   | .identityMismatch => "c02.identity-mismatch"
   | .extraKeyCase => "c02.extra-key-case"
-  | .valueEdgeWhitespace => "c02.value-edge-whitespace"
+  | .valueNotCarried => "c02.value-not-carried"
 
 /-- every received identity bearing name carries exactly the values the gateway generates under that name
     (groups in order; other names as multisets: a Go map does not order them) -/
@@ -181,16 +185,16 @@ def namesAgree (recv gen : Headers) : Bool :=
 
 /-- the judgement on one request received by the upstream when identity `id` is the one to act as -/
 def judgeForward (token : Str) (upgrade : Bool) (id : Identity) (recv : Headers) : List Class :=
-  let gen := wire (gatewayHeaders token upgrade id)
+  let gen := sendOver upgrade (gatewayHeaders token upgrade id)
   (if values recv hAuthorization == values gen hAuthorization then [] else [Class.authorization]) ++
   (if namesAgree (recv.filter (fun e => hasPrefix e.1 hImpPrefix)) (gen.filter (fun e => hasPrefix e.1 hImpPrefix)) then []
    else if recv.any (fun e => hasPrefix e.1 hImpPrefix && (values gen e.1).isEmpty) then [Class.clientHeaderForwarded]
    else [Class.impersonationHeaders]) ++
   (let d := decodeIdentity recv
    if identityAgree d id then []
-   else if identityAgree d (trimIdentity id) then [Class.valueEdgeWhitespace]
+   else if identityAgree d (carryIdentity upgrade id) then [Class.valueNotCarried]
    else if identityAgree d (lowerKeys id) then [Class.extraKeyCase]
-   else if identityAgree d (lowerKeys (trimIdentity id)) then [Class.extraKeyCase, Class.valueEdgeWhitespace]
+   else if identityAgree d (lowerKeys (carryIdentity upgrade id)) then [Class.extraKeyCase, Class.valueNotCarried]
    else [Class.identityMismatch])
 
 /-- the property on one case: `upstream` lists the headers of every request the upstream received -/
